@@ -140,7 +140,9 @@ int tr_open_sim(void *sock)
 			W.ctx.count("probe_expiry_band_at_open");
 		}
 	}
-	if (p.pending_downgrade && sim_now_ns() != p.trigger_ns)
+	bool want_now = p.expect_immediate_open;
+	p.expect_immediate_open = false;
+	if (want_now && sim_now_ns() != p.trigger_ns)
 		W.ctx.viol("C13", "downgrade-reconnect-delayed", "C13:trigger:reconnect-not-immediate",
 			   "socket %d reconnected %llu ms after a version downgrade trigger instead of at once", p.si,
 			   (unsigned long long)((sim_now_ns() - p.trigger_ns) / 1000000));
@@ -838,10 +840,12 @@ void sync_exit_locked(World &W, int si, int rc)
 			W.ctx.count("probe_error_pdu_consumed_code_" + std::to_string(w.err_code));
 			if (w.err_code == 2)
 				b.has_session = false;
-			if (w.err_code == 4 && w.err_ver < b.version && w.err_ver >= 0) {
+			int vcur = (w.downgraded && p.consumed >= from + 8) ? w.version_after : b.version;
+			if (w.err_code == 4 && w.err_ver < vcur && w.err_ver >= 0) {
 				b.version = w.err_ver; // C13 trigger: Unsupported-Version report carrying a lower supported version
 				p.pending_downgrade = 1;
 				p.trigger_ns = sim_now_ns();
+				p.expect_immediate_open = true;
 				W.ctx.count("probe_downgrade_code4");
 			}
 		} else if (w.kind == WK_INCOMPLETE && w.why == "closed" && from == 0 && p.consumed == 0 && !x.at_query.has_session && faults_now == 0 &&
@@ -849,6 +853,7 @@ void sync_exit_locked(World &W, int si, int rc)
 			b.version -= 1; // C13 trigger: cache hung up without answering before any session exists
 			p.pending_downgrade = 2;
 			p.trigger_ns = sim_now_ns();
+			p.expect_immediate_open = true;
 			W.ctx.count("probe_downgrade_hangup");
 		}
 		else if (w.kind == WK_INCOMPLETE && w.why == "closed" && !x.at_query.has_session && b.version > 0 && faults_now == 0) {
